@@ -83,6 +83,7 @@ def run_case(facet, case, tier="quick"):
 
     old = signal.signal(signal.SIGALRM, on_alarm)
     signal.setitimer(signal.ITIMER_REAL, limit)
+    t_case = time.time()
     try:
         facet.check(case, out)
     except CaseTimeout:
@@ -106,6 +107,9 @@ def run_case(facet, case, tier="quick"):
     finally:
         signal.setitimer(signal.ITIMER_REAL, 0)
         signal.signal(signal.SIGALRM, old)
+        slow = os.environ.get("NURBSVERIF_SLOW")  # diagnostic only: report slow cases on stderr
+        if slow and time.time() - t_case > float(slow):
+            sys.stderr.write(f"SLOW {facet.name} {time.time() - t_case:.1f}s {case!r}\n"[:3000])
     return out
 
 
